@@ -459,7 +459,7 @@ META = {
     'by P payload octets that are all z3 integers 0..255 (P = 3, 5 quick; 3, 5, 7 thorough), and a template with symbolic id / flags / counts 0..1 and 0..2 payload octets. '
     'CrossHair exhausts every way the octets can tile into labels, pointers, fixed fields and rdata. Checked on every path: no exception leaves the decoder; calls of '
     '_decode_labels_at_offset + _read_name + _read_record stay within 4 * length + 8; names <= 253 characters; whenever the strict RFC 1035 reader in props/c02.py accepts the '
-    'same octets and only A / AAAA / PTR / CNAME / TXT / SRV records occur, header, questions and records equal the strict reader\'s (names compared label by label as octets). chain[*]: deep compression graphs - a response whose second record's owner is reached through k backward pointers lying in TXT rdata, or a question reached '
+    'same octets and only A / AAAA / PTR / CNAME / TXT / SRV records occur, header, questions and records equal the strict reader\'s (names compared label by label as octets). chain[*]: deep compression graphs - a response whose second owner name is reached through k backward pointers lying in TXT rdata, or a question reached '
     'through k forward pointers, k in 3..4470 (the whole 8966-octet datagram), id / one label octet / TTL symbolic; in the broken variants the low octet of one pointer is symbolic so that the chain '
     'lands on any octet of a 256-octet window (shortcut, cycle, middle of a cell, header); same oracle (names compared only when their text form is lossless).',
     'functions': [
